@@ -4,6 +4,7 @@ package main
 
 import (
 	"bytes"
+	"fmt"
 	"encoding/binary"
 	"math"
 	"sort"
@@ -379,6 +380,65 @@ func genC01More(r *rng, g *tgen, root *Ty, desc *thrift.TypeDescriptor, val *Val
 				f = append(f, items...)
 			}
 			out.emit(104, f...)
+		}
+
+		// ---- 109: typed Foreach over a struct that carries fields its descriptor does NOT define (data of a newer IDL):
+		// unknown fields before / between / after known ones are skipped (an error under DisallowUnknow) ----
+		if cv.T.K == thrift.STRUCT && ct != nil && len(ct.Fields) >= 2 && len(cv.FIDs) >= 1 && r.chance(50) {
+			g.nname++
+			red := &Ty{K: thrift.STRUCT, Name: fmt.Sprintf("R%d", g.nname)}
+			for _, f := range ct.Fields {
+				if r.chance(60) {
+					red.Fields = append(red.Fields, f)
+				}
+			}
+			if len(red.Fields) == len(ct.Fields) {
+				red.Fields = red.Fields[1:]
+			}
+			tg := &tgen{r: r, structs: append(append([]*Ty(nil), g.structs...), red)}
+			rdesc, err := parseThrift(tg.idl(red), thrift.Options{})
+			if err != nil {
+				die("reduced IDL does not parse: %v", err)
+			}
+			ob := 0
+			if r.chance(30) {
+				ob |= 1
+			}
+			if r.chance(40) {
+				ob |= 16
+			}
+			if r.chance(25) {
+				ob |= 32
+			}
+			o := optsOf(ob)
+			o.DisallowUnknow = ob&32 != 0
+			tv := generic.NewValue(rdesc, raw)
+			var items []string
+			n := 0
+			var e error
+			ok, _ := noPanic(func() {
+				e = tv.Foreach(func(pa generic.Path, nd generic.Value) bool {
+					items = append(items, stepOfPath(pa, red).fields()...)
+					items = append(items, observe(raw, nd.Node)[1:]...)
+					n++
+					return true
+				}, o)
+			})
+			f := append([]string(nil), head...)
+			f = append(f, fi(ob), fi(len(red.Fields)))
+			for _, fd := range red.Fields {
+				f = append(f, fi(int(fd.ID)))
+			}
+			switch {
+			case !ok:
+				f = append(f, "n3", "n0")
+			case e != nil:
+				f = append(f, "n2", "n0")
+			default:
+				f = append(f, "n0", fi(n))
+				f = append(f, items...)
+			}
+			out.emit(109, f...)
 		}
 
 		// ---- 105: conversion to Go values ----
